@@ -231,6 +231,9 @@ EvalPath(segs, i, obj, st) ==
                     [] s.t = "i" -> IntV(s.i)
                     [] s.t = "p" -> EvalPath(s.p, 2, Resolve(s.p[1].v, st), st)
        IN IF IsErr(key) THEN key
+          \* a dotted index is syntax only where the environment allows it (the parser refuses it otherwise;
+          \* the focus keeps such paths where they are reached first)
+          ELSE IF s.t = "i" /\ "sh" \in DOMAIN s /\ ~("shorthand" \in DOMAIN st.cfg /\ st.cfg.shorthand) THEN Err("LiquidSyntaxError")
           ELSE IF UndefErr(key, st, "key") THEN Err("UndefinedError")
           ELSE IF obj.t = "blockdrop"
                THEN (IF key.t = "str" /\ key.v = "super"
@@ -637,9 +640,10 @@ IncludeIter(nodes, key, items, i, nsIdx, st) ==
   ELSE LET s1 == [st EXCEPT !.scopes = [@ EXCEPT ![nsIdx] = HPut(@, key, items[i])]]
        IN IncludeIter(nodes, key, items, i + 1, nsIdx, ExecTemplate(nodes, LoopTick(s1)))
 
-\* a context that sees only `ns` and the global layers (RenderContext.copy)
+\* a context that sees only `ns` and the data the template was rendered with (RenderContext.copy):
+\* not the arguments of an enclosing partial, not what an enclosing template assigned
 Isolated(st, ns, disabled) ==
-  [Fresh(st) EXCEPT !.locals = <<>>, !.carryvals = LocalVals(st), !.scopes = <<>>, !.layers = <<ns>> \o st.layers,
+  [Fresh(st) EXCEPT !.locals = <<>>, !.carryvals = LocalVals(st), !.scopes = <<>>, !.layers = <<ns>> \o st.root,
              !.counters = <<>>, !.cycles = <<>>, !.stop = <<>>, !.loops = <<>>, !.macros = <<>>,
              !.disabled = disabled, !.cdepth = st.cdepth + 1, !.intr = "", !.stacks = <<>>]
 
@@ -800,7 +804,7 @@ ExecBlockTag(n, st) ==
 
 -----------------------------------------------------------------------------
 InitState(tpls, data, cfg) ==
-  [out |-> "", locals |-> <<>>, scopes |-> <<>>, layers |-> data, counters |-> <<>>,
+  [out |-> "", locals |-> <<>>, scopes |-> <<>>, layers |-> data, root |-> data, counters |-> <<>>,
    cycles |-> <<>>, stop |-> <<>>, loops |-> <<>>, err |-> "", intr |-> "",
    cfg |-> cfg, tpls |-> tpls, macros |-> <<>>, disabled |-> {}, cdepth |-> 0,
    stacks |-> <<>>, tname |-> "", base |-> 0, null |-> FALSE, lens |-> <<>>, lpcnt |-> <<>>,
